@@ -103,6 +103,8 @@ class KernelModel:
     def _tag_new(self, pat):
         if pat.get('k') == 'Tuple':
             self._tag_pat(pat, ['NEW0', 'NEW1'])
+        elif self.k.two:
+            self._tag_pat(pat, ['NEWPAIR'])      # the pair bound whole: `.0` / `.1` or a later `let (a, b) =`
         else:
             self._tag_pat(pat, ['NEW0'])
 
@@ -133,6 +135,11 @@ class KernelModel:
             break
         if e.get('k') == 'Path' and e.get('res') == 'local':
             return self.tags.get(e['local'])
+        if e.get('k') == 'Field' and e.get('field') in ('0', '1'):
+            b = peel(e['ch'][0])
+            bt = self.tags.get(b.get('local')) if b.get('k') == 'Path' and b.get('res') == 'local' else None
+            if bt in ('NEWPAIR', 'OLDPAIR'):
+                return bt[:3] + e['field']
         if e.get('k') == 'MethodCall' and callee_is(e, 'Vec1View::uget'):
             recv, idx = peel(e['ch'][0]), peel(e['ch'][1])
             which = '0' if is_local(recv, 'self') else '1'
@@ -186,9 +193,11 @@ class KernelModel:
                         if p.get('k') == 'Binding' and self.tags.get(p['local']) != tg:
                             self.tags[p['local']] = tg
                             ch = True
-                elif inner.get('k') == 'Binding' and self.tags.get(inner['local']) != 'OLD0':
-                    self.tags[inner['local']] = 'OLD0'
-                    ch = True
+                elif inner.get('k') == 'Binding':
+                    tg = 'OLDPAIR' if self.k.two else 'OLD0'
+                    if self.tags.get(inner['local']) != tg:
+                        self.tags[inner['local']] = tg
+                        ch = True
             elif t == 'OLDIDXOPT':
                 if inner.get('k') == 'Binding' and self.tags.get(inner['local']) != 'OLDIDX':
                     self.tags[inner['local']] = 'OLDIDX'
@@ -198,6 +207,9 @@ class KernelModel:
             t = self.idx_tag(init)
             if t not in ('OLDIDX', 'END'):
                 t = self.tag_of(init) or t
+            if t is None and init.get('k') == 'Path' and \
+                    self.tags.get(init.get('local')) in ('NEWPAIR', 'OLDPAIR'):
+                t = self.tags[init['local']]
             if t and self.tags.get(pat['local']) != t and t not in ('OLDOPT', 'OLDIDXOPT'):
                 self.tags[pat['local']] = t
                 ch = True
@@ -205,6 +217,13 @@ class KernelModel:
         if k == 'Tuple' and init.get('k') == 'Tup' and len(init['ch']) == len(pat['ch']):
             for p, x in zip(pat['ch'], init['ch']):
                 ch |= self._flow(p, x)
+        if k == 'Tuple' and init.get('k') == 'Path' and len(pat['ch']) == 2 and \
+                self.tags.get(init.get('local')) in ('NEWPAIR', 'OLDPAIR'):
+            base = self.tags[init['local']][:3]
+            for i, p in enumerate(pat['ch']):
+                if p.get('k') == 'Binding' and self.tags.get(p['local']) != base + str(i):
+                    self.tags[p['local']] = base + str(i)
+                    ch = True
         return ch
 
     # -- guards ----------------------------------------------------------
@@ -338,6 +357,10 @@ class KernelModel:
                 # initialiser applied
                 env.vals.pop(lid, None)
                 env.name(lid, t)
+            elif t in ('NEWPAIR', 'OLDPAIR'):
+                env.vals.pop(lid, None)
+                env.name((lid, '0'), t[:3] + '0')
+                env.name((lid, '1'), t[:3] + '1')
 
     # -- classification ---------------------------------------------------
     def classify(self):
